@@ -814,6 +814,17 @@ func extractCoverage(repo string) []fnFact {
 	}
 	funcs := map[string]bool{}
 	methods := map[string][]string{} // method name -> full names
+	pkgNames := map[string]bool{}    // imported packages: strconv.Unquote is not a method of ours
+	for _, f := range files {
+		for _, im := range f.Imports {
+			path, _ := strconv.Unquote(im.Path.Value)
+			name := path[strings.LastIndex(path, "/")+1:]
+			if im.Name != nil {
+				name = im.Name.Name
+			}
+			pkgNames[name] = true
+		}
+	}
 	var decls []*ast.FuncDecl
 	for _, f := range files {
 		for _, d := range f.Decls {
@@ -847,6 +858,9 @@ func extractCoverage(repo string) []fnFact {
 						set[id.Name] = true
 					}
 				case *ast.SelectorExpr:
+					if id, ok := fn.X.(*ast.Ident); ok && pkgNames[id.Name] && id.Obj == nil {
+						break // a function of an imported package
+					}
 					if len(methods[fn.Sel.Name]) > 0 { // a method of the package, receiver unresolved
 						set["."+fn.Sel.Name] = true
 					}
